@@ -5,9 +5,10 @@
   lemmas are in Lemmas/Config.lean.  The model is Model/Config.lean; every table and syntax byte it
   uses comes from Gen/Config.lean, which the translator regenerates from /repo on every run.
 
-  The model describes the code after the two repairs 6d569a0 (`_format_string` quotes whatever
-  `strip()` would change and values containing `;` or CR; CR is written raw) and f1ebc7b
-  (`_strip_comments` is escape-aware).  The statements that were provably FALSE before these commits
+  The model describes the code after the three repairs 6d569a0 (`_format_string` quotes whatever
+  `strip()` would change and values containing `;` or CR; CR is written raw), f1ebc7b
+  (`_strip_comments` is escape-aware) and 21a48ab (`_parse_string` strips only space, TAB, CR, LF
+  around a value, like git).  The statements that were provably FALSE before these commits
   (`valueRoundtripStatement`, `headerRoundtripStatement`, `fileRoundtripStatement`) are now theorems; the
   old counterexamples are kept as regression theorems (`…_roundtrips`).
 -/
@@ -26,14 +27,14 @@ def valueRoundtripStatement : Prop := ∀ v : Bytes, parseString (formatString v
 theorem value_roundtrip : valueRoundtripStatement := by
   intro v
   unfold parseString
-  rw [strip_of_edges (edges_format v), parseLoop_format v]
+  rw [pstrip_of_edges (edges_format v), parseLoop_format v]
 
 /-- the same through the text `from_file` actually hands to `_parse_string` for a line
 `\tkey = VALUE\n`: a space, the formatted value, LF -/
 theorem value_roundtrip_in_line (v : Bytes) :
     parseString (32 :: (formatString v ++ [10])) = .ok v := by
   unfold parseString
-  rw [strip_line_of_edges (edges_format v), parseLoop_format v]
+  rw [pstrip_line_of_edges (edges_format v), parseLoop_format v]
 
 /-! ### regression: the witnesses that refuted the statement before 6d569a0 -/
 
@@ -55,6 +56,19 @@ theorem leading_vt_roundtrips :
 
 /-- a trailing FF is now protected by quotes -/
 theorem trailing_ff_roundtrips : parseString (formatString [97, 12]) = .ok [97, 12] := by decide
+
+/-- regression (21a48ab, reader side): the line git writes for the value `<VT>a` — unquoted, git's
+`isspace` does not include VT — is read back with the VT (it was read as `a`) … -/
+theorem git_unquoted_vt_value_reads_back :
+    parseString [32, 11, 97, 10] = .ok [11, 97] ∧ parseString [32, 97, 32, 12, 10] = .ok [97, 32, 12] := by decide
+
+/-- … also through the whole reader: `[s]\n\tk = <VT>a\n` -/
+theorem git_unquoted_vt_file_reads_back :
+    readFile [91, 115, 93, 10, 9, 107, 32, 61, 32, 11, 97, 10] = .ok [(([115], none), [([107], [11, 97])])] := by
+  decide
+
+/-- the reader still drops what git drops around a value: space, TAB, CR, LF -/
+example : parseString [32, 9, 97, 32, 13, 10] = .ok [97] := by decide
 
 /-- values that need no quotes are still written bare -/
 example : formatString [97, 32, 34, 92, 9, 10, 11, 98] = [97, 32, 92, 34, 92, 92, 92, 116, 92, 110, 11, 98] := by decide
